@@ -26,18 +26,19 @@ def run(tier, seed):
 def root_queue(v, tier, seed):
     """Root.tla: the pthread-pool root queue delivers what Lane.tla's abstract bag assumes, including the
     'every pool thread blocked on a later item' clause; bound to the code by drv_root + RootTrace."""
-    for name in (["R3"] if tier == "quick" else ["R3", "R4", "R2"]):
+    for name in (["R3", "R5"] if tier == "quick" else ["R3", "R5", "R4", "R2"]):
         r = tlc_must_pass("Root/" + name, "MCRoot.tla", "Root_%s.cfg" % name, timeout=3000, metaname="C01_root_%s" % name)
         v.add_model("Root/" + name, r)
         if r.violated:
             v.violation("Root.tla config %s violates %s" % (name, r.violated), save_replay(PROP, "Root_%s.tlc.out" % name, r.out))
-    src = open(os.path.join(SPEC, "cfg", "Root_R3.cfg")).read().replace('Mut = "none"', 'Mut = "no_monitor"')
-    p = os.path.join(rundir(PROP), "Root_R3_no_monitor.cfg")
-    open(p, "w").write(src)
-    r = tlc_must_pass("Root mutant no_monitor", "MCRoot.tla", p, timeout=900, metaname="C01_root_mut")
-    if not r.violated:
-        raise Broken("Root.tla mutant no_monitor not refuted")
-    v.notes.setdefault("spec_mutants_refuted", []).append({"mutant": "no_monitor", "config": "Root/R3", "by": r.violated})
+    for base, mut in (("R3", "no_monitor"), ("R5", "drain_race_no_poke")):
+        src = open(os.path.join(SPEC, "cfg", "Root_%s.cfg" % base)).read().replace('Mut = "none"', 'Mut = "%s"' % mut)
+        p = os.path.join(rundir(PROP), "Root_%s_%s.cfg" % (base, mut))
+        open(p, "w").write(src)
+        r = tlc_must_pass("Root mutant " + mut, "MCRoot.tla", p, timeout=900, metaname="C01_root_mut_" + mut)
+        if not r.violated:
+            raise Broken("Root.tla mutant %s not refuted" % mut)
+        v.notes.setdefault("spec_mutants_refuted", []).append({"mutant": mut, "config": "Root/" + base, "by": r.violated})
     drv = build_driver("drv_root")
     for i in range(1 if tier == "quick" else 4):
         tr = os.path.join(rundir(PROP), "root_%d.ndjson" % i)
